@@ -744,6 +744,17 @@ func (g *Gen) exprOf(typ string, depth int) *GExpr {
 		}
 	}
 	if typ == "any" {
+		if depth > 0 && g.r.Chance(1, 4) {
+			// sums and differences in untyped positions, variables on either side
+			t := g.r.Pick([]string{"number", "monetary"})
+			mk := func() *GExpr {
+				if g.r.Chance(1, 2) {
+					return g.varOf(t)
+				}
+				return g.exprOf(t, depth-1)
+			}
+			return &GExpr{Kind: XInfix, Op: g.r.Pick([]string{"+", "-"}), A: mk(), B: mk()}
+		}
 		typ = g.r.Pick(typeNames)
 	}
 	switch typ {
